@@ -337,12 +337,15 @@ def aggregate(prop, tier, seed, contracts, results, split_errors, known, t_start
                 confirmed = w
         if confirmed is None and getattr(ci.pycls, 'witness_via', None):
             # the obligation is about locals at a cut point: a failing input is searched through the document-level contract
-            via = REGISTRY[ci.pycls.witness_via]
-            ran, hit = verify.bounded_standin(via, 600 if tier == 'quick' else 6000, rng)
-            if hit is not None:
-                hit['solver'] = tried[0]['solver'] if tried else {}
-                hit['found_by'] = f'document-level contract {via.name} (witness for the cut-point obligation {oid})'
-                confirmed = hit
+            wv = ci.pycls.witness_via
+            for via_name in ((wv,) if isinstance(wv, str) else tuple(wv)):
+                via = REGISTRY[via_name]
+                ran, hit = verify.bounded_standin(via, 600 if tier == 'quick' else 6000, rng)
+                if hit is not None and 'harness_error' not in hit:
+                    hit['solver'] = tried[0]['solver'] if tried else {}
+                    hit['found_by'] = f'document-level contract {via.name} (witness for the cut-point obligation {oid})'
+                    confirmed = hit
+                    break
         if confirmed is None:
             if name in unproved_names:
                 # the function is (partly) outside the subset: its bounded stand-in decides, an unconfirmed abstract
